@@ -1192,7 +1192,12 @@ def build_T8r(tree):
     elif len(body) == 2 and isinstance(body[0], ast.For) and isinstance(body[1], ast.Try) and not body[1].handlers \
             and len(body[1].body) == 1 and isinstance(body[1].body[0], ast.Expr) and isinstance(body[1].body[0].value, ast.Yield) \
             and len(body[1].finalbody) == 1 and isinstance(body[1].finalbody[0], ast.For):
-        pre_loop, post_loop, guarded = body[0], body[1].finalbody[0], True
+        # the model's `guarded` branch lets the clean-up run while the body's exception propagates; in the real database the
+        # query the body was iterating over is then still open and SQLite refuses to drop the table it reads ("database table is
+        # locked") — tried: reads after a refused read then differ.  The model does not describe that, so this shape is not
+        # accepted as the modelled program.
+        raise Unsupported('_generate_temp_tables: the clean-up moved into try/finally runs while the unfinished frame query still '
+                          'holds the tables (SQLite: table is locked); not the modelled program')
     else:
         raise Unsupported('_generate_temp_tables is no longer  for-loop / yield / for-loop')
     for lp in (pre_loop, post_loop):
